@@ -42,6 +42,9 @@ type tr struct {
 	failed   string
 	known    map[string]string // Go function name -> Lean name (translated functions of the same package)
 	brkVar   string            // name of the break flag while translating a loop body
+	retVar   string            // name of the early-return slot while translating a loop body
+	fnResults []string         // named results of the function (for bare `return` inside loops)
+	retTy    string            // Lean type of the function result (tuple)
 	vars     []string          // all variable names that may be live (for loop state)
 	types    map[string]string // variable -> go type ("uint","int","bool","[2]uint","error","func")
 }
@@ -557,6 +560,17 @@ func (t *tr) stmts(list []ast.Stmt, k []ast.Stmt) string {
 	cont := func(extra []ast.Stmt) []ast.Stmt { return append(append([]ast.Stmt{}, extra...), append(append([]ast.Stmt{}, rest...), k...)...) }
 	switch v := s.(type) {
 	case *ast.ReturnStmt:
+		if t.retVar != "" {
+			// early return from inside a loop: store the value, leave the loop
+			var vals []string
+			for _, r := range v.Results {
+				vals = append(vals, t.expr(r))
+			}
+			if len(v.Results) == 0 {
+				vals = t.fnResults
+			}
+			return "let " + t.retVar + " : Option (" + t.retTy + ") := some " + t.retTuple(vals) + "; " + t.retTuple(t.results)
+		}
 		if len(v.Results) == 0 {
 			return t.retTuple(t.results)
 		}
@@ -578,6 +592,30 @@ func (t *tr) stmts(list []ast.Stmt, k []ast.Stmt) string {
 		}
 		return t.retTuple(vals)
 	case *ast.AssignStmt:
+		if len(v.Lhs) > 1 && len(v.Rhs) == 1 {
+			if _, isCall := v.Rhs[0].(*ast.CallExpr); isCall {
+				var names []string
+				for i, l := range v.Lhs {
+					id, ok := l.(*ast.Ident)
+					if !ok {
+						return t.fail("assignment target %s", src(l))
+					}
+					nm := id.Name
+					if nm == "_" {
+						nm = fmt.Sprintf("_unused%d", i)
+					} else {
+						t.params[nm] = true
+						if i == len(v.Lhs)-1 && (nm == "err" || nm == "er") {
+							t.types[nm] = "error"
+						} else if _, ok := t.types[nm]; !ok {
+							t.types[nm] = "uint"
+						}
+					}
+					names = append(names, nm)
+				}
+				return "let (" + strings.Join(names, ", ") + ") := " + t.expr(v.Rhs[0]) + "; " + t.stmts(rest, k)
+			}
+		}
 		if len(v.Lhs) != len(v.Rhs) {
 			return t.fail("assignment %s", src(v))
 		}
@@ -648,13 +686,15 @@ func (t *tr) stmts(list []ast.Stmt, k []ast.Stmt) string {
 				if vs.Type != nil {
 					ty = src(vs.Type)
 				}
-				t.types[n.Name] = ty
-				t.params[n.Name] = true
-				val := "0"
 				if i < len(vs.Values) {
 					if bl, ok := vs.Values[i].(*ast.BasicLit); ok && bl.Kind == token.STRING {
 						continue // string constants (operation names) are irrelevant
 					}
+				}
+				t.types[n.Name] = ty
+				t.params[n.Name] = true
+				val := "0"
+				if i < len(vs.Values) {
 					val = t.expr(vs.Values[i])
 				}
 				out += "let " + n.Name + " : " + leanType(ty) + " := " + val + "; "
@@ -765,9 +805,12 @@ func assignedVars(t *tr, list []ast.Stmt) []string {
 func (t *tr) forLoop(v *ast.ForStmt, rest, k []ast.Stmt) string {
 	bad := false
 	hasBreak := false
+	hasRet := false
 	ast.Inspect(v.Body, func(n ast.Node) bool {
 		switch b := n.(type) {
-		case *ast.ReturnStmt, *ast.ForStmt, *ast.FuncLit:
+		case *ast.ReturnStmt:
+			hasRet = true
+		case *ast.ForStmt, *ast.FuncLit:
 			bad = true
 		case *ast.BranchStmt:
 			if b.Tok == token.BREAK && b.Label == nil {
@@ -778,8 +821,8 @@ func (t *tr) forLoop(v *ast.ForStmt, rest, k []ast.Stmt) string {
 		}
 		return true
 	})
-	if bad {
-		return t.fail("loop with return/continue/labelled break/nested loop")
+	if bad || (hasRet && t.retTy == "") {
+		return t.fail("loop with continue/labelled break/nested loop (or return without known result type)")
 	}
 	pre := ""
 	var initStmts []ast.Stmt
@@ -826,6 +869,13 @@ func (t *tr) forLoop(v *ast.ForStmt, rest, k []ast.Stmt) string {
 		t.params[brk] = true
 		state = append(state, brk)
 	}
+	ret := ""
+	if hasRet {
+		ret = fmt.Sprintf("ret%d", t.loopN)
+		t.types[ret] = "retslot"
+		t.params[ret] = true
+		state = append(state, ret)
+	}
 	visible := map[string]bool{}
 	for n := range t.params {
 		visible[n] = true
@@ -835,6 +885,7 @@ func (t *tr) forLoop(v *ast.ForStmt, rest, k []ast.Stmt) string {
 	sub.results = state
 	sub.loops = nil
 	sub.brkVar = brk
+	sub.retVar = ret
 	bodyS := sub.stmts(body, nil)
 	t.extra = sub.extra
 	t.loops = append(t.loops, sub.loops...)
@@ -847,6 +898,9 @@ func (t *tr) forLoop(v *ast.ForStmt, rest, k []ast.Stmt) string {
 	}
 	if hasBreak {
 		condS = "(" + condS + " ∧ " + brk + " = false)"
+	}
+	if hasRet {
+		condS = "(" + condS + " ∧ " + ret + ".isNone = true)"
 	}
 	// free variables of the loop: word parameters / locals / mangled selectors occurring in it
 	occurs := map[string]bool{}
@@ -878,6 +932,19 @@ func (t *tr) forLoop(v *ast.ForStmt, rest, k []ast.Stmt) string {
 	for _, s := range state {
 		inState[s] = true
 	}
+	// names introduced inside the body are locals of the body, never parameters of the loop
+	for _, s := range body {
+		ast.Inspect(s, func(n ast.Node) bool {
+			if a, ok := n.(*ast.AssignStmt); ok && a.Tok == token.DEFINE {
+				for _, l := range a.Lhs {
+					if id, ok := l.(*ast.Ident); ok {
+						inState[id.Name] = true
+					}
+				}
+			}
+			return true
+		})
+	}
 	var cand []string
 	for n := range occurs {
 		cand = append(cand, n)
@@ -907,6 +974,9 @@ func (t *tr) forLoop(v *ast.ForStmt, rest, k []ast.Stmt) string {
 	stTypes := make([]string, len(state))
 	for i, s := range state {
 		stTypes[i] = leanType(t.types[s])
+		if t.types[s] == "retslot" {
+			stTypes[i] = "Option (" + t.retTy + ")"
+		}
 	}
 	stTuple := t.retTuple(state)
 	stType := strings.Join(stTypes, " × ")
@@ -917,6 +987,10 @@ func (t *tr) forLoop(v *ast.ForStmt, rest, k []ast.Stmt) string {
 	init := ""
 	if hasBreak {
 		init = "let " + brk + " : Bool := false; "
+	}
+	if hasRet {
+		init += "let " + ret + " : Option (" + t.retTy + ") := none; "
+		return pre + init + "let " + stTuple + " := " + call + "; (match " + ret + " with | some v => v | none => " + t.stmts(rest, k) + ")"
 	}
 	return pre + init + "let " + stTuple + " := " + call + "; " + t.stmts(rest, k)
 }
@@ -968,6 +1042,22 @@ func translateFn(f *fn, known map[string]string, retTypes map[string]string) str
 		}
 		return true
 	})
+	if f.decl.Type.Results != nil {
+		var rts []string
+		for _, fld := range f.decl.Type.Results.List {
+			n := len(fld.Names)
+			if n == 0 {
+				n = 1
+			}
+			for i := 0; i < n; i++ {
+				rts = append(rts, leanType(src(fld.Type)))
+			}
+			for _, nm := range fld.Names {
+				t.fnResults = append(t.fnResults, nm.Name)
+			}
+		}
+		t.retTy = strings.Join(rts, " × ")
+	}
 	body := t.funcBody(f.decl.Type, f.decl.Body)
 	var extra []string
 	for _, e := range t.extra {
@@ -1011,7 +1101,7 @@ func translateFn(f *fn, known map[string]string, retTypes map[string]string) str
 
 // functions translated, in dependency order
 var translateList = []string{
-	"auxmath.BoundSqrt", "auxmath.boundLog2", "auxmath.Pow", "auxmath.Gcd",
+	"auxmath.BoundSqrt", "auxmath.boundLog2", "auxmath.Pow", "auxmath.Gcd", "auxmath.FactorizePrimePower",
 	"bivariate.swap", "bivariate.Lex", "bivariate.degCompare", "bivariate.WDegLex", "bivariate.WDegRevLex",
 	"bivariate.DegLex", "bivariate.DegRevLex", "bivariate.addDegs", "bivariate.subtractDegs",
 	"binfield.bitQuoRem", "binfield.bitProd", "binfield.Element.reduce",
@@ -1023,7 +1113,7 @@ func writeCode(funcs map[string]*fn, path string) {
 	b.WriteString("-- GENERATED by /verif/extract (translate.go) from /repo's working tree — do not edit\n")
 	b.WriteString("import Algobra.Model.Word\nimport Algobra.Model.Errors\nset_option linter.unusedVariables false\nnamespace Algobra.Gen.Code\nopen Algobra\n\n")
 	b.WriteString("/-- marker type of a function the translator could not handle -/\nstructure Unsupported where\n  reason : String\n\n")
-	b.WriteString("/-- fuel of translated `for` loops (every loop of the translated functions ends long before) -/\ndef loopFuel : Nat := 100000\n\n")
+	b.WriteString("/-- fuel of translated `for` loops: more rounds than any loop over machine words can make -/\ndef loopFuel : Nat := 2 ^ 64\n\n")
 	known := map[string]string{}
 	retTypes := map[string]string{}
 	for _, key := range translateList {
